@@ -14,7 +14,9 @@ Model: `Wee/Model/Eval.lean` (`evaluate`, `evalHeuristic`, the four evaluators, 
   side conditions are stated and are discharged for the engine's values below).
 * `C13_neg_heuristic`, `C13_neg` — **no hypotheses**: for every `State` whatsoever (legal or not),
   the score from White's perspective is the negation of the score from Black's perspective, and
-  the evaluator panics for one perspective iff it panics for the other.
+  the evaluator panics for one perspective iff it panics for the other.  (The clamp of the heuristic
+  result added by the repair of defect F10 has symmetric bounds `NEG_INF + 1 = -(POS_INF - 1)`, so it
+  commutes with negation: `clampHeuristic_neg`.)
 * `C13_mirror_heuristic_partial` — the heuristic score of the colour-mirrored position from the
   mirrored perspective equals the original one; only hypothesis: at most one king per side.
 * `C13_mirror` — the same for the whole evaluator, under `MirrorTerminalAgree s` (the terminal
